@@ -11,6 +11,7 @@ import (
 	"time"
 
 	"github.com/openfga/openfga/internal/verifhook"
+	"github.com/openfga/openfga/pkg/storage/memory"
 )
 
 var PipelineSpecDirs = func() []string { return []string{filepath.Join(VerifRoot(), "spec", "pipeline")} }
@@ -127,7 +128,8 @@ func C21(run *Run) {
 	tr := &plTracer{jitter: rand.New(rand.NewSource(run.Seed + 5))}
 	verifhook.InstallTracer(tr)
 	defer verifhook.InstallTracer(nil)
-	v := NewVariants()
+	cds := NewCancelDS(memory.New())
+	v := NewVariantsDS(cds)
 	defer v.Close()
 	bg := context.Background()
 	rec := &Recorder{}
@@ -159,6 +161,44 @@ func C21(run *Run) {
 			hangs++
 		}
 	}
+	// a deep recursive hierarchy whose members also feed an intersection with an empty operand, run with
+	// tiny buffers: a cycle member must not get stuck on an operand nobody reads any more
+	{
+		m := &Model{Types: []string{"user", "group", "folder", "doc"}, Conds: []CondDef{}, Rels: []RelDef{
+			{T: "folder", R: "parent", Rw: &Rewrite{K: "this"}, Restr: []Restr{{T: "folder"}}},
+			{T: "folder", R: "member", Rw: &Rewrite{K: "union", Ch: []*Rewrite{{K: "this"}, {K: "ttu", TS: "parent", Rel: "member"}}}, Restr: []Restr{{T: "user"}}},
+			{T: "folder", R: "admin", Rw: &Rewrite{K: "this"}, Restr: []Restr{{T: "user"}}},
+			{T: "folder", R: "moderator", Rw: &Rewrite{K: "inter", Ch: []*Rewrite{{K: "computed", Rel: "admin"}, {K: "computed", Rel: "member"}}}, Restr: []Restr{}},
+		}}
+		depth := run.Pick(150, 400)
+		var ts []Tuple
+		for i := 0; i < depth; i++ {
+			ts = append(ts, tp(fmt.Sprintf("folder:d%03d", i), "parent", fmt.Sprintf("folder:d%03d", i+1)))
+		}
+		ts = append(ts, tp(fmt.Sprintf("folder:d%03d", depth), "member", "user:a"))
+		if err := v.Base.Setup(bg, m, ts); err != nil {
+			run.Inconclusive("deep hierarchy setup failed: %v", err)
+		}
+		for _, eng := range []string{"pipeline:d20", "pipeline:c1:q1:p1:d20", "pipeline:c2:q0:p3:d20"} {
+			for _, rel := range []string{"moderator", "member"} {
+				ev := &ListObjectsEv{Eng: eng, T: "folder", R: rel, U: Subj{"user", "a", ""}, Ctx: Ctx{}}
+				tr.begin()
+				v.RunLO(bg, ev)
+				got := tr.end(ev.Errk == "hang", false)
+				cuts[len(lines)] = true
+				lines = append(lines, got...)
+				run.Evals++
+				want := 0
+				if rel == "member" {
+					want = depth + 1
+				}
+				if ev.Errk != "hang" && (ev.IsErr || len(ev.Got) != want) {
+					run.Violation(map[string]any{"prop": "C21", "class": "BAD_PIPELINE_RESULT", "event": ev, "want_count": want},
+						fmt.Sprintf("deep hierarchy: %s %s returned %d objects (err %v %s), %d expected", eng, rel, len(ev.Got), ev.IsErr, ev.Err, want))
+				}
+			}
+		}
+	}
 	for c := 0; c < nCases; c++ {
 		cs, _ := GenCase(r, c, GenOpts{ForceShapes: c%2 == 0, MinTuples: 8})
 		if err := v.Base.Setup(bg, cs.Model, cs.Tuples); err != nil {
@@ -179,6 +219,7 @@ func C21(run *Run) {
 				d := time.Duration(r.Intn(400)) * time.Microsecond
 				time.AfterFunc(d, cancel)
 			}
+			faulted := false
 			tr.begin()
 			ok := v.RunLO(ctx, ev)
 			cancel()
@@ -201,7 +242,7 @@ func C21(run *Run) {
 					break
 				}
 			}
-			if !cancelled {
+			if !cancelled && !faulted {
 				rec.Add(ev)
 			}
 			run.Nontrivial(hashOf([]any{cs.Model, cs.Tuples, q, eng}))
